@@ -344,8 +344,10 @@ pub fn err_to_json(e: &JmespathError, text: &str) -> Value {
                 RuntimeError::TooManyArguments { expected, actual } | RuntimeError::NotEnoughArguments { expected, actual } => {
                     json!({"expected":expected,"actual":actual})
                 }
-                RuntimeError::InvalidType { position, .. } => json!({"position":position}),
-                RuntimeError::InvalidReturnType { position, invocation, .. } => json!({"position":position,"invocation":invocation}),
+                RuntimeError::InvalidType { position, expected, actual } => json!({"position":position,"expected":ascii_cps(expected),"actual":ascii_cps(actual)}),
+                RuntimeError::InvalidReturnType { position, invocation, expected, actual } => {
+                    json!({"position":position,"invocation":invocation,"expected":ascii_cps(expected),"actual":ascii_cps(actual)})
+                }
                 _ => json!({}),
             },
         ),
